@@ -267,6 +267,7 @@ func (e *Engine) preludeFull() string {
 (declare-fun scat (Str Str) Str)
 (declare-fun ssub (Str Int Int) Str)
 (declare-fun slt (Str Str) Bool)
+(declare-fun qmarks (Str) Int)
 (declare-fun box_Str (Str) Int)
 (declare-fun unbox_Str (Int) Str)
 (declare-fun box_Int (Int) Int)
@@ -277,6 +278,9 @@ func (e *Engine) preludeFull() string {
 (assert (forall ((s Int)) (! (= (unbox_Int (box_Int s)) s) :pattern ((box_Int s)))))
 (assert (forall ((s Bool)) (! (= (unbox_Bool (box_Bool s)) s) :pattern ((box_Bool s)))))
 (assert (= (slen str_empty) 0))
+(assert (= (qmarks str_empty) 0))
+(assert (forall ((s Str)) (! (>= (qmarks s) 0) :pattern ((qmarks s)))))
+(assert (forall ((a Str) (b Str)) (! (= (qmarks (scat a b)) (+ (qmarks a) (qmarks b))) :pattern ((scat a b)))))
 (assert (forall ((s Str)) (! (>= (slen s) 0) :pattern ((slen s)))))
 (assert (forall ((s Str)) (! (=> (= (slen s) 0) (= s str_empty)) :pattern ((slen s)))))
 (assert (forall ((a Str) (b Str)) (! (= (slen (scat a b)) (+ (slen a) (slen b))) :pattern ((scat a b)))))
@@ -298,6 +302,7 @@ func (e *Engine) preludeFull() string {
 	for _, l := range lits {
 		fmt.Fprintf(&b, "(declare-const %s Str) ; %q\n", l.v, truncate(l.k, 60))
 		fmt.Fprintf(&b, "(assert (= (slen %s) %d))\n", l.v, len(l.k))
+		fmt.Fprintf(&b, "(assert (= (qmarks %s) %d))\n", l.v, strings.Count(l.k, "?"))
 		if len(l.k) <= 24 {
 			for i := 0; i < len(l.k); i++ {
 				fmt.Fprintf(&b, "(assert (= (sat %s %d) %d))\n", l.v, i, l.k[i])
